@@ -310,8 +310,9 @@ _budget_hits = [0]
 
 
 def run(spec, cfg, mode="enumerate", var=None, limit=None, jump_budget=None, stack=None,
-        max_solutions=None) -> Outcome:
-    """mode: 'enumerate' (solve() to exhaustion or `limit` solutions), 'min', 'max' (on variable `var`)."""
+        max_solutions=None, entry="solve") -> Outcome:
+    """mode: 'enumerate' (solve() to exhaustion or `limit` solutions), 'min', 'max' (on variable `var`).
+    entry (enumerate only): which public spelling is used: 'solve' (the generator), 'find_all', 'solve_all' (callback)."""
     ensure_watch()
     out = Outcome()
     out.jumps = 0
@@ -326,7 +327,14 @@ def run(spec, cfg, mode="enumerate", var=None, limit=None, jump_budget=None, sta
         out.solver = make_solver(out.problem, spec, cfg, stack)
         if mode == "enumerate":
             cap = max_solutions if max_solutions is not None else 4 * max(1, U.n_assignments(spec)) + 4
-            for sol in out.solver.solve():
+            if entry == "find_all":
+                it = out.solver.find_all()
+            elif entry == "solve_all":
+                it = []
+                out.solver.solve_all(it.append)
+            else:
+                it = out.solver.solve()
+            for sol in it:
                 out.solutions.append(tuple(int(v) for v in sol))
                 if limit is not None and len(out.solutions) >= limit:
                     break
